@@ -17,9 +17,11 @@ import (
 	"github.com/hydraide/hydraide/sdk/go/hydraidego/v3/hydraidepbgo"
 	"github.com/hydraide/hydraide/sdk/go/hydraidego/v3/name"
 	"google.golang.org/grpc"
+	"google.golang.org/grpc/codes"
 	"google.golang.org/grpc/credentials"
 	"google.golang.org/grpc/grpclog"
 	"google.golang.org/grpc/keepalive"
+	"google.golang.org/grpc/status"
 )
 
 const (
@@ -388,8 +390,20 @@ func (c *client) GetServiceClient(swampName name.Name) hydraidepbgo.HydraideServ
 	slog.Error("error while getting service client by swamp name",
 		"swampName", swampName.Get())
 
-	return nil
+	return hydraidepbgo.NewHydraideServiceClient(unroutable{island: folderNumber})
 
+}
+
+// unroutable is the connection behind the service client that is handed out for an island no configured
+// server covers: every call on it fails with codes.Unavailable instead of a nil-pointer panic in the caller.
+type unroutable struct{ island uint64 }
+
+func (u unroutable) Invoke(context.Context, string, any, any, ...grpc.CallOption) error {
+	return status.Errorf(codes.Unavailable, "%s: no server is configured for island %d", errorNoConnection, u.island)
+}
+
+func (u unroutable) NewStream(context.Context, *grpc.StreamDesc, string, ...grpc.CallOption) (grpc.ClientStream, error) {
+	return nil, status.Errorf(codes.Unavailable, "%s: no server is configured for island %d", errorNoConnection, u.island)
 }
 
 // GetAllIslands returns the total number of Islands configured in the client.
@@ -447,7 +461,7 @@ func (c *client) GetServiceClientAndHost(swampName name.Name) *ServiceClient {
 		"swampName", swampName.Get(),
 		"error", errorNoConnection)
 
-	return nil
+	return &ServiceClient{GrpcClient: hydraidepbgo.NewHydraideServiceClient(unroutable{island: folderNumber})}
 
 }
 
